@@ -226,6 +226,12 @@ def provoked():
     cases.append(('add_computed_field format with a missing key', lambda root: [list(data), DF.add_computed_field(target='f', operation='format', with_='{nope}')], {'KeyError'}))
     cases.append(('sort_rows on a missing key', lambda root: [list(data), DF.sort_rows('{nope}')], {'KeyError'}))
     cases.append(('join on a missing key field', lambda root: [list(data), list(data), DF.join('res_1', ['nope'], 'res_2', ['a'], dict(b=None))], {'KeyError'}))
+    for mode_ in ('inner', 'half-outer', 'full-outer'):
+        cases.append(('join (%s): the TARGET key names a field the target rows do not have' % mode_,
+                      lambda root, mode_=mode_: [list(data), list(data), DF.join('res_1', ['a'], 'res_2', ['nope'], dict(b2=dict(name='b')), mode=mode_)], {'KeyError'}))
+        cases.append(('join (%s): one target row lacks the key field' % mode_,
+                      lambda root, mode_=mode_: [list(data), [dict(a=1, b='x'), dict(a=2, b='y'), dict(a=3, b='z')], _drop_key_in('res_2', 'a', 2),
+                                                 DF.join('res_1', ['a'], 'res_2', ['a'], dict(b2=dict(name='b')), mode=mode_)], {'KeyError'}))
     cases.append(('row function raises at the last row', lambda root: [list(data), _raise_at(3)], {'ZeroDivisionError'}))
     cases.append(('rows function raises at exhaustion', lambda root: [list(data), _raise_at_end], {'ZeroDivisionError'}))
     cases.append(('unpivot: a kept field is missing from a row', lambda root: [list(data), _drop_key('a'),
@@ -242,6 +248,20 @@ def provoked():
     cases.append(('a step inside a nested Flow raises', lambda root: [list(data), DF.Flow(DF.add_field('z', 'integer', 1), DF.Flow(_raise_at(2)))], {'ZeroDivisionError'}))
     cases.append(('a step inside an always-true conditional raises', lambda root: [list(data), DF.conditional(lambda dp: True, DF.Flow(_raise_at(2)))], {'ZeroDivisionError'}))
     cases.append(('a source inside sources() dies after the sample', lambda root: [list(data), DF.sources(dying_source(150, 120))], {'RuntimeError'}))
+    cases.append(('a step of a sub-flow given to sources() raises when its stream is exhausted', lambda root: [list(data), DF.sources(DF.Flow(list(data), _raise_at_end))], {'ZeroDivisionError'}))
+    cases.append(('a step of a sub-flow given to sources() raises at its last row', lambda root: [DF.sources(list(data), DF.Flow(list(data), _raise_at(3)))], {'ZeroDivisionError'}))
+    cases.append(('a rows step inside an always-true conditional raises at exhaustion', lambda root: [list(data), DF.conditional(lambda dp: True, DF.Flow(_raise_at_end))], {'ZeroDivisionError'}))
+    # a step that fails only after EVERY stream has been exhausted (an end-of-package totals check): the enclosing construct must pull
+    # the sub-flow's resource iterator to its very end, not just as many resources as were declared
+    cases.append(('a package step raises after all streams are exhausted', lambda root: [list(data), _raise_after_all], {'ZeroDivisionError'}))
+    cases.append(('a package step of a sub-flow given to sources() raises after all its streams are exhausted',
+                  lambda root: [list(data), DF.sources(DF.Flow(list(data), _raise_after_all))], {'ZeroDivisionError'}))
+    cases.append(('the same, sources() first in the chain and the sub-flow last among the sources',
+                  lambda root: [DF.sources(list(data), DF.Flow(list(data), _raise_after_all))], {'ZeroDivisionError'}))
+    cases.append(('a package step inside an always-true conditional raises after all streams are exhausted',
+                  lambda root: [list(data), DF.conditional(lambda dp: True, DF.Flow(_raise_after_all))], {'ZeroDivisionError'}))
+    cases.append(('a package step inside a nested Flow raises after all streams are exhausted, a deleting step follows',
+                  lambda root: [list(data), list(data), DF.Flow(_raise_after_all), DF.delete_resource(0)], {'ZeroDivisionError'}))
     cases.append(('the predicate of conditional raises', lambda root: [list(data), DF.conditional(lambda dp: 1 / 0, DF.Flow(DF.add_field('z', 'integer', 1)))], {'ZeroDivisionError'}))
     cases.append(('a finalizer callback raises', lambda root: [list(data), DF.finalizer(lambda: 1 / 0)], {'ZeroDivisionError'}))
     # StopIteration is the one exception class an iterator protocol may mistake for "the stream ended": a step raising it at row k
@@ -334,9 +354,27 @@ def _stop_source(n, at):
     return gen()
 
 
+def _raise_after_all(package):
+    yield package.pkg
+    for rows in package:
+        yield rows
+    1 / 0
+
+
 def _raise_at_end(rows):
     yield from rows
     1 / 0
+
+
+def _drop_key_in(resname, k, at):
+    def f(package):
+        yield package.pkg
+        for rows in package:
+            if rows.res.name == resname:
+                yield ({kk: v for kk, v in row.items() if not (kk == k and i == at - 1)} for i, row in enumerate(rows))
+            else:
+                yield rows
+    return f
 
 
 def _drop_key(k):
